@@ -846,6 +846,103 @@ where
         let num_active_workers = self.pool.values().filter(|f| f.is_working()).count();
         let _ = reply.send(num_active_workers);
     }
+
+    /// cfg-only: the whole bookkeeping state as a JSON object
+    #[cfg(ractor_verif)]
+    fn verif_snapshot(&self) -> String {
+        let mut wids: Vec<&WorkerId> = self.pool.keys().collect();
+        wids.sort_unstable();
+        let workers: Vec<String> = wids
+            .iter()
+            .map(|w| self.pool[*w].verif_snapshot())
+            .collect();
+        let (lim, mode) = match self.discard_settings.get_limit_and_mode() {
+            None => (-1, "none"),
+            Some((l, DiscardMode::Newest)) => (l as i64, "newest"),
+            Some((l, DiscardMode::Oldest)) => (l as i64, "oldest"),
+        };
+        let drain = match self.drain_state {
+            DrainState::NotDraining => 0,
+            DrainState::Draining => 1,
+            DrainState::Drained => 2,
+        };
+        let router = self.router.verif_state();
+        format!(
+            "{{\"q\":{},\"ps\":{},\"drain\":{},\"lim\":{},\"mode\":\"{}\",\"nba\":{},\"w\":[{}]{}{}}}",
+            crate::verif::json_list(&self.queue.verif_ids()),
+            self.pool_size,
+            drain,
+            lim,
+            mode,
+            self.worker_by_actor.len(),
+            workers.join(","),
+            if router.is_empty() { "" } else { "," },
+            router
+        )
+    }
+
+    /// cfg-only: one handler invocation of the factory ended; what it handled and the state it left
+    #[cfg(ractor_verif)]
+    fn verif_step(&self, myself: ActorId, desc: (&'static str, i64, i64, i64, String)) {
+        use crate::verif::Val;
+        crate::verif::emit_kv(
+            "factory.step",
+            myself.pid(),
+            0,
+            vec![
+                ("kind".to_string(), Val::S(desc.0.to_string())),
+                ("a1".to_string(), Val::I(desc.1)),
+                ("a2".to_string(), Val::I(desc.2)),
+                ("a3".to_string(), Val::I(desc.3)),
+                ("s1".to_string(), Val::S(desc.4)),
+                ("snap".to_string(), Val::S(self.verif_snapshot())),
+            ],
+        );
+    }
+}
+
+/// cfg-only: kind and scalar arguments of a factory message
+#[cfg(ractor_verif)]
+fn verif_desc<TKey: JobKey, TMsg: Message>(
+    message: &FactoryMessage<TKey, TMsg>,
+) -> (&'static str, i64, i64, i64, String) {
+    let no = String::new;
+    match message {
+        FactoryMessage::Dispatch(job) => (
+            "dispatch",
+            crate::verif::tag(&job.msg),
+            crate::verif::tag(&job.key),
+            0,
+            no(),
+        ),
+        FactoryMessage::Finished(who, key) => {
+            ("finished", *who as i64, crate::verif::tag(key), 0, no())
+        }
+        FactoryMessage::AdjustWorkerPool(n) => ("adjust", *n as i64, 0, 0, no()),
+        FactoryMessage::DrainRequests => ("drain", 0, 0, 0, no()),
+        FactoryMessage::UpdateSettings(r) => {
+            let (lim, mode) = match r.discard_settings.as_ref().map(|d| d.get_limit_and_mode()) {
+                None => (-2, "same"),
+                Some(None) => (-1, "none"),
+                Some(Some((l, DiscardMode::Newest))) => (l as i64, "newest"),
+                Some(Some((l, DiscardMode::Oldest))) => (l as i64, "oldest"),
+            };
+            (
+                "update",
+                lim,
+                r.worker_count.map(|c| c as i64).unwrap_or(-1),
+                0,
+                mode.to_string(),
+            )
+        }
+        FactoryMessage::Calculate => ("calc", 0, 0, 0, no()),
+        FactoryMessage::WorkerPong(w, _) => ("pong", *w as i64, 0, 0, no()),
+        FactoryMessage::DoPings(_) => ("pings", 0, 0, 0, no()),
+        FactoryMessage::GetQueueDepth(_) => ("q_depth", 0, 0, 0, no()),
+        FactoryMessage::GetNumActiveWorkers(_) => ("q_active", 0, 0, 0, no()),
+        FactoryMessage::GetAvailableCapacity(_) => ("q_cap", 0, 0, 0, no()),
+        FactoryMessage::IdentifyStuckWorkers => ("stuck", 0, 0, 0, no()),
+    }
 }
 
 #[cfg_attr(feature = "async-trait", crate::async_trait)]
@@ -989,6 +1086,8 @@ where
         for worker_props in state.pool.values() {
             worker_props.actor.stop(None);
         }
+        #[cfg(ractor_verif)]
+        state.verif_step(myself.get_id(), ("post_stop", 0, 0, 0, String::new()));
         // now wait on the handles until the workers finish
         for worker_props in state.pool.values_mut() {
             if let Some(handle) = worker_props.get_join_handle() {
@@ -1009,6 +1108,13 @@ where
         message: SupervisionEvent,
         state: &mut Self::State,
     ) -> Result<(), ActorProcessingErr> {
+        #[cfg(ractor_verif)]
+        let verif_desc = match &message {
+            SupervisionEvent::ActorTerminated(who, ..) => ("sup_term", who.get_id().pid() as i64),
+            SupervisionEvent::ActorFailed(who, _) => ("sup_fail", who.get_id().pid() as i64),
+            SupervisionEvent::ActorStarted(who) => ("sup_started", who.get_id().pid() as i64),
+            _ => ("sup_other", 0),
+        };
         match message {
             SupervisionEvent::ActorTerminated(who, _, reason) => {
                 let should_ping_replacement = state.dead_mans_switch.is_some();
@@ -1086,6 +1192,11 @@ where
             }
             _ => {}
         }
+        #[cfg(ractor_verif)]
+        state.verif_step(
+            myself.get_id(),
+            (verif_desc.0, verif_desc.1, 0, 0, String::new()),
+        );
         Ok(())
     }
 
@@ -1095,6 +1206,8 @@ where
         message: FactoryMessage<TKey, TMsg>,
         state: &mut Self::State,
     ) -> Result<(), ActorProcessingErr> {
+        #[cfg(ractor_verif)]
+        let verif_desc = verif_desc(&message);
         match message {
             FactoryMessage::Dispatch(job) => {
                 state.dispatch(job)?;
@@ -1140,6 +1253,8 @@ where
             // stop the factory
             myself.stop(None);
         }
+        #[cfg(ractor_verif)]
+        state.verif_step(myself.get_id(), verif_desc);
         Ok(())
     }
 }
